@@ -643,6 +643,7 @@ func c02Concurrent(tier string) []*Scenario {
 		out = append(out, s)
 	}
 	out = append(out, famTwoDeletes(false, b)...)
+	out = append(out, famReloadReplacement(b)...)
 	return out
 }
 
